@@ -28,7 +28,13 @@ where
 				let mut st = mk();
 				let mut local = Local::default();
 				crate::report::set_case(leg, idx[0]);
-				f(idx[0], &mut st, &mut local);
+				let r = std::panic::catch_unwind(std::panic::AssertUnwindSafe(|| f(idx[0], &mut st, &mut local)));
+				if r.is_err() {
+					let msgs = crate::sched::take_thread_panics();
+					let msg = msgs.last().cloned().unwrap_or_else(|| "panic (no message captured)".into());
+					let site = msg.split(':').next().unwrap_or("").rsplit('/').next().unwrap_or("").to_string();
+					rep.violation(&format!("panic:{site}"), &format!("evaluating enumeration case {} of leg {leg} panicked: {msg}", idx[0]), serde_json::json!({"engine":"ENUM","panic": msg}));
+				}
 				crate::report::clear_case();
 				rep.merge(local);
 			}
@@ -52,7 +58,16 @@ where
 						if numbered {
 							crate::report::set_case(leg, i);
 						}
-						f(i, &mut st, &mut local);
+						// a panic inside the code under test is a verdict about this case, not the end of the enumeration
+						let r = std::panic::catch_unwind(std::panic::AssertUnwindSafe(|| f(i, &mut st, &mut local)));
+						if r.is_err() {
+							let msgs = crate::sched::take_thread_panics();
+							let msg = msgs.last().cloned().unwrap_or_else(|| "panic (no message captured)".into());
+							let site = msg.split(':').next().unwrap_or("").rsplit('/').next().unwrap_or("").to_string();
+							rep.violation(&format!("panic:{site}"), &format!("evaluating enumeration case {i} of leg {leg} panicked: {msg}"), serde_json::json!({"engine":"ENUM","panic": msg}));
+							local.case_unique("panicked");
+							st = mk();
+						}
 					}
 					crate::mem::backpressure();
 				}
